@@ -172,3 +172,6 @@ class VdiSuite(ReaderSuite):
 
 
 SUITES = {"vdi": VdiSuite()}
+
+from harness.readers import under_O  # noqa: E402
+SUITES["vdi_pyO"] = under_O(SUITES["vdi"])
